@@ -13,7 +13,7 @@ PROP = dict(
          "random derivative slots) evaluated by Evaluation<double,N> N=1..16, two dynamically sized variants and an "
          "independent dual-number evaluator; a case is non-trivial when it has >= 3 operator nodes and a non-zero "
          "derivative; distinct = distinct hash of (inputs, program)",
-    stages=[dict(harness="c16_ad", flavour="plain", cases={Q: 400000, T: 20000000},
+    stages=[dict(harness="c16_ad", flavour="plain", cases={Q: 400000, T: 80000000},
                  timeout={Q: 600, T: 5400})],
     min_nontrivial={Q: 100000, T: 3750000},
     assumptions=["libm functions used by the reference are accurate to a few ulp",
